@@ -3,10 +3,13 @@
     their OCaml counterparts and andb/orb are inlined; [nat], [N] and [positive] stay the
     extracted inductives. No directive of our own. *)
 From Coq Require Import ExtrOcamlBasic.
-From DV Require Import Model.Base Model.NameCheck Model.Parser Model.Header.
+From DV Require Import Model.Base Model.NameCheck Model.Parser Model.Header Model.Readers
+  Model.Uncompress Model.Mutate Model.Gen Model.Text Model.Compress Model.Renamer Model.Walk.
 
 Extraction Language OCaml.
 Extraction "model.ml"
   check_compressed_name check_uncompressed_name parse_c cursor_run ps_init
   pp_tid pp_flags pp_rcode pp_opcode pp_is_response pp_dnssec
-  pp_set_tid pp_set_flags pp_set_response pp_set_rcode pp_set_opcode pp_empty.
+  pp_set_tid pp_set_flags pp_set_response pp_set_rcode pp_set_opcode pp_empty
+  uncompress_with_previous_offset compress rr_from_string raw_name_from_str
+  renamer_rename replace_raw gen_query exec_op parse.
